@@ -101,13 +101,13 @@ CLAIMS["C05"] = dict(
 
 CLAIMS["C02"] = dict(
   level="other",
-  technique="static analysis: backward value slice of what self-insert inserts, byte/rune/column unit analysis (abstract interpretation over go/ssa) on the insertion path, ordering check in Line.Insert, bind-table constants of the default keymaps",
-  text="Decides that self-insert inserts exactly the caller key on every non-autopair path, that no column/byte quantity is used as a character position while inserting, that Line.Insert copies the tail before its in-place append, that every printable ASCII key is self-insert by default in emacs and vi-insert, and that meta conversion is guarded by convert-meta. End-to-end fidelity for non-ASCII text depends on start-up bind tables and byte-wise dispatch (value-level) and is not decided.",
-  ref="§5 C02")
+  technique="static analysis: backward value slice of what self-insert inserts, must-pass-through and branch-fact rules on the main dispatcher (multibyte character assembly), on TrimSuffix, Quote/unescapeRunes and Sources.Accept, byte/rune/column unit analysis (abstract interpretation over go/ssa) on the insertion path, ordering check in Line.Insert, bind-table constants of the default keymaps",
+  text="Decides that self-insert inserts exactly the caller key on every non-autopair path; that the main dispatcher assembles a multibyte UTF-8 character no bind knows from the key queue, binds it whole to self-insert and waits for its last bytes (necessary because binds are matched byte-wise and hold no lead byte); that TrimSuffix removes text only for a registered suffix matcher; that Quote leaves an ordinary rune (a backslash included) alone; that Accept stores the buffer as the returned line on every path and run/Readline return it unmodified; that no column/byte quantity is used as a character position while inserting; that Line.Insert copies the tail before its in-place append; that every printable ASCII key is self-insert by default in emacs and vi-insert; and that meta conversion is guarded by convert-meta. Equality of returned and typed text for all inputs (value level) is not decided.",
+  ref="§0, §5 C02")
 CLAIMS["C04"] = dict(
   level="other",
-  technique="static analysis: byte/rune/column unit analysis over every function of the redisplay path, recompute-before-paint ordering (must-pass-through), only-writer check of the coordinate fields",
-  text="Decides that coordinates are recomputed before every use in Refresh/AcceptLine, that only computeCoordinates writes them, and that no byte count is used as a rune index or as a column count anywhere on the display path (which is what misplaces the cursor or leaves remnants for multi-byte / double-width text). The painted grid itself needs a terminal model and is not decided.",
+  technique="static analysis: byte/rune/column unit analysis over every function of the redisplay path, recompute-before-paint and clear-after-newline ordering (must-pass-through), only-writer check of the coordinate fields, agreement of the tab-expansion constants of the printing and measuring functions",
+  text="Decides that coordinates are recomputed before every use in Refresh/AcceptLine, that only computeCoordinates writes them, that no byte count is used as a rune index or as a column count anywhere on the display path (which is what misplaces the cursor or leaves remnants for multi-byte / double-width text), that a tab is measured as the same blanks it is printed as, and that the row entered when a line fills the width exactly is cleared. The painted grid itself needs a terminal model and is not decided.",
   ref="§5 C04")
 CLAIMS["C20"] = dict(
   level="other",
@@ -118,7 +118,7 @@ CLAIMS["C20"] = dict(
 CLAIMS["C12"] = dict(
   level="proof",
   technique="static analysis: zone-domain abstract interpretation over go/ssa (difference constraints on integer values and symbolic lengths, branch refinement, boolean-guarded facts, widening) with a modular contract table; plus panic / type-assertion / division / nil inventories and loop-variant and bounded-recursion checks",
-  text="Every index and slice expression in the parser functions reachable from the parse entry points (853 obligations on this tree, including helper preconditions at call sites, postconditions at returns and the len(conds) >= 1 invariant) is proved in range; no explicit panic, unchecked assertion or unguarded division exists; every loop has a termination variant and the $include recursion a checked bound. All obligations must be discharged for the proof level; the check drops to level other (and fails) otherwise. Proof is relative to the stated trusted base (the prover itself, contract/lemma tables, go/ssa, totality of the stdlib calls, a finite reader, returning handler callbacks); integer overflow and narrowing conversions are not modelled.",
+  text="Every index and slice expression in the parser functions reachable from the parse entry points (over 850 obligations on this tree, including helper preconditions at call sites, postconditions at returns and the len(conds) >= 1 invariant) is proved in range; no explicit panic, unchecked assertion or unguarded division exists; every loop has a termination variant (or a reviewed argument whose structural condition is re-checked) and the $include recursion a checked depth bound written only by the nested-parse option and a too-deep error that ends every enclosing level (linear, not exponential, re-parsing). All obligations must be discharged for the proof level; the check drops to level other (and fails) otherwise. Proof is relative to the stated trusted base (the prover itself, contract/lemma tables, go/ssa, totality of the stdlib calls, a finite reader, returning handler callbacks); integer overflow and narrowing conversions are not modelled.",
   ref="§5 C12, Appendix B",
   note="Trusted base: rlcheck/zone.go (the abstract interpreter) and the contract table in rlcheck/c12.go; lemmas on strings.Index/HasPrefix/len; go/packages + go/ssa; totality of strconv/strings/unicode/bufio/fmt/bytes/os/user/filepath; a finite io.Reader; Handler callbacks return; Config maps non-nil; machine-integer overflow not modelled.")
 
